@@ -44,6 +44,21 @@ Example C05_legacy_refuted_u32 :
     65536 65536 = Some 8.
 Proof. vm_compute. reflexivity. Qed.
 
+(* a level without groups and data: header size + wire blockLength, in size_t,
+   for every blockLength header type *)
+Theorem C05_flat_level_size_exact : forall hdr bl,
+  0 <= hdr -> 0 <= bl -> hdr + bl < 2 ^ 64 -> flat_level_size hdr bl = Some (hdr + bl).
+Proof. exact flat_level_size_ok. Qed.
+Print Assumptions C05_flat_level_size_exact.
+
+(* the code before 4be05dc added an int literal to the blockLength in the
+   blockLength's own type: a uint32 blockLength of 2^32-4 and an 10-byte header
+   gave 6 *)
+Example C05_legacy_flat_level_refuted_u32 :
+  (Msg.LegacyMsg.flat_level_size U32 10 4294967292 = Some 6) /\
+  (flat_level_size 10 4294967292 = Some 4294967302).
+Proof. vm_compute. split; reflexivity. Qed.
+
 From Sbepp Require Import Cursor CursorSpec CursorProofs.
 
 (* the generated trait-level formula message_traits::size_bytes(counts...,
